@@ -6,7 +6,7 @@ From Coq Require Import String ZArith QArith Bool Arith Lia Permutation List.
 From GT Require Import Base.UTree Model.Reroot Model.Prune Model.Collapse Model.NNI Model.History Model.Heap Model.HeapEdit Model.HeapSpec
      Proofs.Enum Proofs.HeapBase Proofs.HeapRep Proofs.HeapGood Proofs.HeapGoodRep Proofs.HeapReroot Proofs.HeapUnroot
      Proofs.HeapNocheck Proofs.HeapGraft Proofs.HeapGraftSq Proofs.HeapCollapseTree Proofs.HeapPaths Proofs.HeapCollapseSq
-     Proofs.HeapRerootL Proofs.HeapNNIMain Proofs.HeapNNISq Proofs.HeapPruneTree Proofs.HeapPruneSq Proofs.HeapRotateSq Model.HeapEdit2 Proofs.HeapSortSq Proofs.HeapSingleSq Proofs.NNIBase Proofs.HeapNNIUndoSq.
+     Proofs.HeapRerootL Proofs.HeapNNIMain Proofs.HeapNNISq Proofs.HeapPruneTree Proofs.HeapPruneSq Proofs.HeapRotateSq Model.HeapEdit2 Proofs.HeapSortSq Proofs.HeapSingleSq Proofs.NNIBase Proofs.HeapNNIUndoSq Proofs.HeapEdgesSeq Proofs.HeapEdgesSq.
 Import ListNotations.
 Local Close Scope Q_scope.
 
@@ -63,7 +63,7 @@ Qed.
 Theorem run_hop_square o h t h' : Good h -> abs h = Some t -> run_hop_heap o h = HOk h' ->
   Good h' /\ exists t', run_hop_tree o t = Ok t' /\ abs h' = Some t'.
 Proof.
-  intros G Ha E. destruct o as [i|i| |name k|rr rt k|r|nm|cs| | |k undo]; cbn [run_hop_heap run_hop_tree] in *.
+  intros G Ha E. destruct o as [i|i| |name k|rr rt k|r|nm|cs| | |k undo|rr rt idx|l rr rt|s rr]; cbn [run_hop_heap run_hop_tree] in *.
   - destruct (tree_nodes h) as [ns| |] eqn:En; cbn [hbind] in E; try discriminate.
     destruct (nth_error ns i) as [n|] eqn:Ei; [|discriminate].
     pose proof (reroot_heap_refines h t ns i n G Ha En Ei) as H. rewrite E in H.
@@ -127,6 +127,12 @@ Proof.
     rewrite Ev in E. cbn [hbind] in E. rewrite Hap. destruct undo.
     + rewrite Ev2 in E. injection E as <-. rewrite Hun. split; [exact (Rep_Good _ _ R2)|]. eexists. split; [reflexivity|exact (Rep_abs _ _ R2)].
     + injection E as <-. split; [exact (Rep_Good _ _ R')|]. eexists. split; [reflexivity|exact (Rep_abs _ _ R')].
+  - destruct (remove_edges_idx_heap_square rr rt idx h t G Ha) as (lt & h2 & Ed & Ev & G2 & A2). rewrite Ed, Ev in E. injection E as <-.
+    split; [exact G2|]. eexists. split; [reflexivity|exact A2].
+  - destruct (remove_edges_where_square rr rt (sel_len l) h t G Ha) as (lt & h2 & Ed & Ev & G2 & A2). rewrite Ed, Ev in E. injection E as <-.
+    split; [exact G2|]. eexists. split; [reflexivity|exact A2].
+  - destruct (remove_edges_where_square rr false (sel_sup s) h t G Ha) as (lt & h2 & Ed & Ev & G2 & A2). rewrite Ed, Ev in E. injection E as <-.
+    split; [exact G2|]. eexists. split; [reflexivity|exact A2].
 Qed.
 
 (** the pointer-level half of C03 for these operations, as one statement *)
@@ -152,4 +158,8 @@ Proof. reflexivity. Qed.
 Lemma run_hop_tree_history_rmsingle t : run_hop_tree HRmSingle t = run_op ORmSingle t.
 Proof. reflexivity. Qed.
 Lemma run_hop_tree_history_nni k undo t : run_hop_tree (HNni k undo) t = run_op (ONni k undo) t.
+Proof. reflexivity. Qed.
+Lemma run_hop_tree_history_collapse_len l rr rt t : run_hop_tree (HCollapseLen l rr rt) t = run_op (OCollapseLen l rr rt) t.
+Proof. reflexivity. Qed.
+Lemma run_hop_tree_history_collapse_sup s rr t : run_hop_tree (HCollapseSup s rr) t = run_op (OCollapseSup s rr) t.
 Proof. reflexivity. Qed.
